@@ -605,6 +605,11 @@ def insert_region(text, rng):
         pieces.append((form, kd))
         prev = g + 1
     pieces.append(("".join(t for _, t in toks[prev:]), None))
+    if rng.random() < 0.15:
+        # a region that opens at the very top of the file: the toggle comment is the file's first token (in any spelling, also the
+        # ones the comment rewriter would normalise), with or without whitespace in front of it - all of it verbatim
+        form = rng.choice(OFF_FORMS + ["//pasfmt off  \n", "//pasfmt off\n", "{pasfmt off}   "])
+        pieces = [(rng.choice(["", "", "  ", "\n\n", "\t", " \n "]), None), (form, "off")] + pieces
     new = "".join(p for p, _ in pieces)
     regions = []
     ignored = False
@@ -613,7 +618,8 @@ def insert_region(text, rng):
     for ptxt, kd in pieces:
         if kd == "off" and not ignored:
             ignored = True
-            start = pos
+            # (the whitespace in front of the file's first token belongs to that token: verbatim with it)
+            start = 0 if new[:pos].strip(" \t\r\n") == "" else pos
         elif kd == "on" and ignored:
             # the region ends with the `on` comment itself (some forms carry text after the comment)
             if ptxt.startswith("//"):
@@ -1718,8 +1724,46 @@ def run_c06(ctx):
             cfg = gen.random_cfg(rng, wrap=rng.choice([40, 80, 120]))
             pairs.append((ctx.case("asm", a, cfg, meta={"asm_body": body}), ctx.case("asm-relayout", b, cfg, meta={"asm_body": body}), {"asm_body": body}))
 
+    # verbatim regions are excluded - but only they: one statement whose head and whose tail each lie in a `pasfmt off`..`pasfmt on`
+    # region while its middle is ordinary code, the middle in two layouts (no blank lines, no comments): the regions must come out
+    # byte for byte and the middle must not depend on its layout
+    def two_region_pair():
+        words = [rng.choice(["Alpha", "Beta", "Gamma", "Delta", "Foo", "Bar"]) + "x" * rng.randrange(0, 8) for _ in range(rng.randrange(3, 9))]
+        mid = []
+        for i, w in enumerate(words):
+            mid.append(w)
+            if i + 1 < len(words):
+                mid.append(rng.choice([",", " +", ",", " *"]))
+        head = "{pasfmt off}" + rng.choice(["Foo  (", "X   :=  Call (", "Result:=F("]) + "{pasfmt on}"
+        tail = "{pasfmt off}" + rng.choice([")  ;", " )   ;", ");"]) + "{pasfmt on}"
+
+        # (the two gaps that touch the toggle comments are part of the comment placement: the same in both layouts)
+        first_gap, last_gap = rng.choice([" ", "\n", "  ", "\n    "]), rng.choice([" ", "\n", "  "])
+
+        def lay():
+            out = [head]
+            for k_, t_ in enumerate(mid):
+                if t_.startswith((",", " ")):
+                    out.append(t_)
+                else:
+                    out.append((first_gap if k_ == 0 else rng.choice([" ", " ", "  ", "\n", "\n      ", "\t"])) + t_)
+            out.append(last_gap + tail)
+            return "".join(out)
+        pre, post = "procedure P;\nbegin\n  ", "\n  Y := 1;\nend;\n"
+        return pre + lay() + post, pre + lay() + post, [head.encode(), tail.encode()]
+    for _ in range(ctx.n(150, 3000)):
+        a, b, regs = two_region_pair()
+        if a != b:
+            cfg = gen.random_cfg(rng, wrap=rng.choice([30, 60, 120]))
+            pairs.append((ctx.case("two-regions", a, cfg), ctx.case("two-regions-relayout", b, cfg), {"regions": regs}))
+
     def compare(ra, rb, meta):
         ctx.count("relayout_pairs")
+        for reg in meta.get("regions", []):
+            for r in (ra, rb):
+                if reg not in r.out:
+                    ctx.fail("region_not_verbatim", r.case, "verbatim region %r not found byte for byte in the output" % reg, observed=r.out.hex()[:2000])
+                    return
         if meta.get("asm_body") is not None:
             for r in (ra, rb):
                 if meta["asm_body"].encode("utf-8") not in r.out:
